@@ -277,7 +277,7 @@ func cmdCheck(eng *Engine, args []string) int {
 				body += "query: " + qp + "\n"
 			}
 			replayed := false
-			if u.FType != nil || (ob.Result == "sat" && ob.Model != "") {
+			if u.FType != nil || (ob.Result == "sat" && ob.Model != "") || id == "C16" {
 				if rep := tryReplay(eng, u, ob, verifDir); rep != "" {
 					body += "\nreplay on the real code:\n" + rep
 					replayed = strings.Contains(rep, "REPRODUCED")
@@ -286,8 +286,20 @@ func cmdCheck(eng *Engine, args []string) int {
 			violation(ob.Name, body, !replayed)
 		}
 	}
+	nUnitOb := nOb
 	// finite-domain obligations (complete evaluation of the real code)
-	for _, r := range append(append(eng.finiteDomain(id, tmp), eng.confinedChecks(id)...), eng.mapOrderChecks(id)...) {
+	scanResults := append(append(eng.finiteDomain(id, tmp), eng.confinedChecks(id)...), eng.mapOrderChecks(id)...)
+	if id == "C16" {
+		scanResults = append(scanResults, eng.repeatChecks(id)...)
+		// determinism of what is computed: C06's obligation set, re-run under C16
+		scanResults = append(scanResults, eng.mapOrderChecks("C06")...)
+		for k := range eng.repeatAssumptions() {
+			assumed[k] = true
+		}
+	}
+	repeatReplay := ""
+	boundedNote := ""
+	for _, r := range scanResults {
 		nOb++
 		if r.OK && strings.Contains(r.Goal, "[ASSUMED by maporder declaration") {
 			// not proved: an explicit assumption of the contract files
@@ -308,9 +320,30 @@ func cmdCheck(eng *Engine, args []string) int {
 		// the mismatching cases ARE the failing inputs, observed on the real code
 		if strings.Contains(r.Name, "/finite-domain/") {
 			violation(r.Name, fmt.Sprintf("obligation: %s\nkind: finite-domain\ngoal: %s\nREPRODUCED on the real code (go test -overlay harness in package directive):\n%s\n", r.Name, r.Goal, r.Detail), false)
+		} else if id == "C16" {
+			if repeatReplay == "" {
+				if repeatReplayMemo == "" {
+					repeatReplayMemo = replayRepeat(eng)
+				}
+				repeatReplay = repeatReplayMemo
+			}
+			violation(r.Name, fmt.Sprintf("obligation: %s\nkind: whole-module SSA scan\ngoal: %s\n%s\n\nreplay on the real code:\n%s", r.Name, r.Goal, r.Detail, repeatReplay),
+				!strings.Contains(repeatReplay, "REPRODUCED input"))
 		} else {
 			violation(r.Name, fmt.Sprintf("obligation: %s\nkind: whole-module SSA scan\ngoal: %s\n%s\n", r.Name, r.Goal, r.Detail), true)
 		}
+	}
+	if id == "C16" && tier == "thorough" {
+		// bounded cross-check on the real code (never counted as proved): every history of length 3 over the five accessors
+		if repeatReplay == "" {
+			repeatReplay = replayRepeat(eng)
+		}
+		if strings.Contains(repeatReplay, "REPRODUCED input") {
+			violation("kit.JApi/repeat-histories/bounded#1", "bounded check: call histories of length 3 over the five accessors on the real code\n"+repeatReplay, false)
+		} else if !strings.Contains(repeatReplay, "NOT-REPRODUCED") {
+			violation("kit.JApi/repeat-histories/harness#1", "bounded check did not run:\n"+repeatReplay, true)
+		}
+		boundedNote = strings.TrimSpace(repeatReplay)
 	}
 	if nOb == 0 {
 		violation("no-obligations", "no obligation was generated for this property (vacuity guard)\n", true)
@@ -331,6 +364,10 @@ func cmdCheck(eng *Engine, args []string) int {
 			as = append(as, "definitional axiom of an abstract predicate, "+strings.TrimSpace(a[6:]))
 		} else if strings.HasPrefix(a, "GLOBALINV ") {
 			as = append(as, "package-level variable initialised once and never reassigned: "+strings.TrimSpace(a[10:]))
+		} else if strings.HasPrefix(a, "ASSUMESAFE ") {
+			as = append(as, "absence of run-time panics in the body of "+a[11:]+" is assumed (attr assumesafe: the unit is verified for frame/postconditions only)")
+		} else if strings.HasPrefix(a, "REPEAT ") {
+			as = append(as, a[7:])
 		} else if strings.HasPrefix(a, "ASSUME ") {
 			as = append(as, "unchecked assume clause of "+a[7:])
 		} else {
@@ -347,6 +384,10 @@ func cmdCheck(eng *Engine, args []string) int {
 	if len(knownHit) > 0 || nViol > 0 {
 		level = "other"
 		expl = fmt.Sprintf("%d of %d obligations discharged; %d open known findings; %d violations", nOK, nOb, len(knownHit), nViol)
+	}
+	if id == "C16" && level == "proof" {
+		level = "other"
+		expl = fmt.Sprintf("frame/determinism obligations decided mechanically on the SSA of everything the five accessors reach in the module (%d results) plus %d deductive frame obligations; calls that leave the module and the cache-fill code under sync.Once are assumptions, listed", nOb-nUnitOb, nUnitOb)
 	}
 	if id == "C06" && level == "proof" {
 		level = "other"
@@ -371,6 +412,9 @@ func cmdCheck(eng *Engine, args []string) int {
 			"integers":                 "mathematical Int with exact wrap-around for + - ++ -- and constant *; shifts/bit operations uninterpreted",
 			"explanation":              expl,
 		}}
+	if boundedNote != "" {
+		ev.Coverage["bounded_cross_check"] = "BOUNDED, not counted as proved: " + boundedNote
+	}
 	if expl == "" {
 		delete(ev.Coverage, "explanation")
 	} else {
@@ -416,6 +460,14 @@ func expectedMin(verifDir, id string) int {
 }
 
 // tryReplay: hook for replaying a solver model on the real code (see replay.go).
+var repeatReplayMemo string
+
 func tryReplay(eng *Engine, u *Unit, ob *Obligation, verifDir string) string {
+	if hasProp(ob.Props, "C16") && !hasProp(ob.Props, "C01") {
+		if repeatReplayMemo == "" {
+			repeatReplayMemo = replayRepeat(eng)
+		}
+		return repeatReplayMemo
+	}
 	return replayModel(eng, u, ob, verifDir)
 }
